@@ -109,6 +109,8 @@ pub enum Op {
     Drop { at: u16 },
     /// serve certificate `cert` for the hash of certificate `key_of`
     ServeFor { key_of: u16, cert: u16 },
+    /// for the hash of the parent of certificate `at`, serve the certificate `1 + up` links further up instead
+    ServeAncestorForParent { at: u16, up: u8 },
     /// a second certificate for the same signed message (differs in unsigned metadata), one child re-pointed to it
     Duplicate { at: u16, child: u16, delta: i64 },
     SelfLoop { at: u16, mode: u8 },
@@ -512,6 +514,23 @@ fn apply_op(st: &mut Store, op: &Op, cx: &Ctx) {
             st.served.insert(key, c);
             st.touched.insert(c);
             st.touched.insert(k);
+        }
+        Op::ServeAncestorForParent { at, up } => {
+            let Some(i) = st.standard_slot(*at) else { return };
+            let key = st.certs[i].previous_hash.clone();
+            let Some(&p) = st.served.get(&key) else { return };
+            let mut a = p;
+            for _ in 0..=(*up % 3) {
+                match st.served.get(&st.certs[a].previous_hash) {
+                    Some(&n) if n != a => a = n,
+                    _ => break,
+                }
+            }
+            if a != p {
+                st.served.insert(key, a);
+                st.touched.insert(p);
+                st.touched.insert(a);
+            }
         }
         Op::Duplicate { at, child, delta } => {
             let i = st.slot(*at);
@@ -1106,6 +1125,7 @@ fn op_strategy() -> impl Strategy<Value = Op> {
         4 => (any::<u16>(), rel(), any::<u16>(), mostly(), mostly()).prop_map(|(at, rel, to, rehash, repoint)| Op::Retarget { at, rel, to, rehash, repoint }),
         1 => any::<u16>().prop_map(|at| Op::Drop { at }),
         1 => (any::<u16>(), any::<u16>()).prop_map(|(key_of, cert)| Op::ServeFor { key_of, cert }),
+        1 => (any::<u16>(), 0u8..3).prop_map(|(at, up)| Op::ServeAncestorForParent { at, up }),
         1 => (any::<u16>(), any::<u16>(), any::<i64>()).prop_map(|(at, child, delta)| Op::Duplicate { at, child, delta }),
         1 => (any::<u16>(), 0u8..3).prop_map(|(at, mode)| Op::SelfLoop { at, mode }),
         1 => (mostly(), mostly()).prop_map(|(rehash, repoint)| Op::GenesisOtherKey { rehash, repoint }),
@@ -1131,15 +1151,22 @@ fn hist_strategy(pool: Vec<ChainSpec>) -> impl Strategy<Value = HistCase> {
     let step = || (prop_oneof![2 => Just(vec![]), 3 => prop::collection::vec(op_strategy(), 1..=2)], head_strategy()).prop_map(|(ops, head)| Step { ops, head });
     // the shapes named in the design: honest first then tampered sharing a suffix, the reverse, and the same fork served
     // with and without the parent's (unverifiable) commitment
-    let fork_pattern = (any::<u16>(), any::<bool>(), parent_fix(), parent_fix(), any::<bool>(), head_strategy(), head_strategy()).prop_map(|(at, same_params, p1, p2, honest_first, h1, h2)| {
-        let mut steps = vec![];
-        if honest_first {
-            steps.push(Step { ops: vec![], head: HeadSel::Last });
-        }
-        steps.push(Step { ops: vec![Op::AdvFork { at, same_params, parent: p1 }], head: h1 });
-        steps.push(Step { ops: vec![Op::AdvFork { at, same_params, parent: p2 }], head: h2 });
-        steps
-    });
+    let fork_pattern = (any::<u16>(), any::<bool>(), parent_fix(), parent_fix(), any::<bool>(), head_strategy(), head_strategy(), prop::option::weighted(0.4, 0u8..3)).prop_map(
+        |(at, same_params, p1, p2, honest_first, h1, h2, swap_parent)| {
+            let mut steps = vec![];
+            if honest_first {
+                steps.push(Step { ops: vec![], head: HeadSel::Last });
+            }
+            steps.push(Step { ops: vec![Op::AdvFork { at, same_params, parent: p1 }], head: h1 });
+            let mut ops = vec![Op::AdvFork { at, same_params, parent: p2 }];
+            if let Some(up) = swap_parent {
+                // the fork's (unverifiable) parent is replaced on the wire by one of its honest ancestors
+                ops.push(Op::ServeAncestorForParent { at, up });
+            }
+            steps.push(Step { ops, head: h2 });
+            steps
+        },
+    );
     (prop::sample::select(pool), adv_strategy(), prop_oneof![2 => prop::collection::vec(step(), 2..=4), 1 => fork_pattern]).prop_map(|(chain, adv, steps)| HistCase { chain, adv, steps })
 }
 
@@ -1205,6 +1232,7 @@ pub fn run(args: &Args) -> i32 {
         .require_label("op:GenesisAsStandard")
         .require_label("op:Drop")
         .require_label("op:ServeFor")
+        .require_label("op:ServeAncestorForParent")
         .require_label("op:Duplicate")
         .require_label("op:SelfLoop")
         .require_label("class:cache-history")
